@@ -7,8 +7,11 @@ import (
 
 // ---- bytes.Buffer / strings.Builder: field 0 of the struct holds the content as a StrVal ----
 
+// bufField is the struct field that holds the modelled content: bytes.Buffer.buf (field 0) or
+// strings.Builder.buf (field 1; field 0 is the self pointer). Both are []byte fields.
+
 func (x *Exec) bufGet(s *State, p *PtrVal) *StrVal {
-	fa, ok := x.fieldAddr(s, p, 0)
+	fa, ok := x.fieldAddr(s, p, x.bufFieldIdx)
 	if !ok {
 		return x.str("")
 	}
@@ -23,7 +26,7 @@ func (x *Exec) bufGet(s *State, p *PtrVal) *StrVal {
 }
 
 func (x *Exec) bufSet(s *State, p *PtrVal, v *StrVal) {
-	fa, ok := x.fieldAddr(s, p, 0)
+	fa, ok := x.fieldAddr(s, p, x.bufFieldIdx)
 	if !ok {
 		return
 	}
@@ -104,48 +107,58 @@ func (x *Exec) strToBytes(s *State, sv *StrVal) *SliceVal {
 func nilErr(x *Exec) Value { return x.zero(errorType) }
 
 func init() {
-	for _, recv := range []string{"(*bytes.Buffer)", "(*strings.Builder)"} {
+	for ri, recv := range []string{"(*bytes.Buffer)", "(*strings.Builder)"} {
 		r := recv
-		RegisterIntrinsic(r+".WriteByte", func(x *Exec, s *State, c *CallCtx) Value {
+		fieldIdx := ri // bytes.Buffer: 0, strings.Builder: 1
+		wrap := func(f Intrinsic) Intrinsic {
+			return func(x *Exec, s *State, c *CallCtx) Value {
+				old := x.bufFieldIdx
+				x.bufFieldIdx = fieldIdx
+				defer func() { x.bufFieldIdx = old }()
+				return f(x, s, c)
+			}
+		}
+		_ = wrap
+		RegisterIntrinsic(r+".WriteByte", wrap(func(x *Exec, s *State, c *CallCtx) Value {
 			p := c.Args[0].(*PtrVal)
 			cur := x.bufGet(s, p)
 			x.bufSet(s, p, x.strConcat(cur, &StrVal{B: []*Term{c.Args[1].(*Term)}, Len: x.tb.Int64(1)}))
 			return nilErr(x)
-		})
-		RegisterIntrinsic(r+".WriteString", func(x *Exec, s *State, c *CallCtx) Value {
+		}))
+		RegisterIntrinsic(r+".WriteString", wrap(func(x *Exec, s *State, c *CallCtx) Value {
 			p := c.Args[0].(*PtrVal)
 			a := c.Args[1].(*StrVal)
 			x.bufSet(s, p, x.strConcat(x.bufGet(s, p), a))
 			return &TupleVal{E: []Value{a.Len, nilErr(x)}}
-		})
-		RegisterIntrinsic(r+".Write", func(x *Exec, s *State, c *CallCtx) Value {
+		}))
+		RegisterIntrinsic(r+".Write", wrap(func(x *Exec, s *State, c *CallCtx) Value {
 			p := c.Args[0].(*PtrVal)
 			a := x.bytesToStr(s, c.Args[1])
 			x.bufSet(s, p, x.strConcat(x.bufGet(s, p), a))
 			return &TupleVal{E: []Value{a.Len, nilErr(x)}}
-		})
-		RegisterIntrinsic(r+".WriteRune", func(x *Exec, s *State, c *CallCtx) Value {
+		}))
+		RegisterIntrinsic(r+".WriteRune", wrap(func(x *Exec, s *State, c *CallCtx) Value {
 			p := c.Args[0].(*PtrVal)
 			rn := c.Args[1].(*Term)
 			x.oblige(s, "escape", "WriteRune of a non-ASCII rune", x.tb.And(s.G, x.tb.Not(x.tb.ULt(rn, x.tb.BV(32, 128)))))
 			x.bufSet(s, p, x.strConcat(x.bufGet(s, p), &StrVal{B: []*Term{x.tb.Extract(rn, 7, 0)}, Len: x.tb.Int64(1)}))
 			return &TupleVal{E: []Value{x.tb.Int64(1), nilErr(x)}}
-		})
-		RegisterIntrinsic(r+".String", func(x *Exec, s *State, c *CallCtx) Value {
+		}))
+		RegisterIntrinsic(r+".String", wrap(func(x *Exec, s *State, c *CallCtx) Value {
 			p := c.Args[0].(*PtrVal)
 			if nl := x.ptrIsNil(p); nl.IsTrue() {
 				return x.str("<nil>")
 			}
 			return x.bufGet(s, p)
-		})
-		RegisterIntrinsic(r+".Len", func(x *Exec, s *State, c *CallCtx) Value {
+		}))
+		RegisterIntrinsic(r+".Len", wrap(func(x *Exec, s *State, c *CallCtx) Value {
 			return x.bufGet(s, c.Args[0].(*PtrVal)).Len
-		})
-		RegisterIntrinsic(r+".Reset", func(x *Exec, s *State, c *CallCtx) Value {
+		}))
+		RegisterIntrinsic(r+".Reset", wrap(func(x *Exec, s *State, c *CallCtx) Value {
 			x.bufSet(s, c.Args[0].(*PtrVal), x.str(""))
 			return nil
-		})
-		RegisterIntrinsic(r+".Grow", func(x *Exec, s *State, c *CallCtx) Value { return nil })
+		}))
+		RegisterIntrinsic(r+".Grow", wrap(func(x *Exec, s *State, c *CallCtx) Value { return nil }))
 	}
 	RegisterIntrinsic("(*bytes.Buffer).Bytes", func(x *Exec, s *State, c *CallCtx) Value {
 		return x.strToBytes(s, x.bufGet(s, c.Args[0].(*PtrVal)))
